@@ -458,16 +458,17 @@ def ev_label(ev):
 
 # ------------------------------------------------------------------------------------------------ adapter
 class HealthAdapter(engine.Adapter):
-    def __init__(self, menu, fix_svc, fix_app, dscan, drest, nscan):
+    def __init__(self, menu, fix_svc, fix_app, dscan, drest, nscan, init=()):
+        self.init = [tuple(e) for e in init]  # events applied by build(): operations already under way when the search starts
         self.scenario = "db" if menu == "db" else "host"
         self.sc = SCENARIOS[self.scenario]
         self.cfg = {"scenario": self.scenario, "menu": menu, "fix_svc": fix_svc, "fix_app": fix_app, "dscan": dscan,
                     "drest": drest, "nscan": nscan}
-        self.name = "c14-%s-fix%d%d-fs%d%d-n%d" % (menu, fix_svc, fix_app, dscan, drest, nscan)
+        self.name = "c14-%s-fix%d%d-fs%d%d-n%d%s" % (menu, fix_svc, fix_app, dscan, drest, nscan, "-i%d" % len(self.init) if self.init else "")
         self._menu = _menu(menu)
 
     def params(self):
-        return dict(self.cfg)
+        return dict(self.cfg, init=[list(e) for e in self.init])
 
     def build(self):
         c, sc = self.cfg, self.sc
@@ -522,6 +523,8 @@ class HealthAdapter(engine.Adapter):
             s.obs_cov = {}
             state = s.sim.describe_state()
             s.obs_prev = {k: o.observe(state)["health_status"] for k, o in s.obs.items()}
+        for ev in self.init:
+            self.apply(s, ev)
         return s
 
     def menu(self, s):
@@ -694,19 +697,20 @@ class FixAdapter(engine.Adapter):
     Oracle (clause (c) for software): a fix accepted in step t keeps the software FIXING until the ``fixing_duration``-th
     following step of a node that is ON and returns it to GOOD exactly then - whatever its operating state does meanwhile."""
 
-    def __init__(self, sw_name, duration):
+    def __init__(self, sw_name, duration, init=()):
         from . import c13
 
         self.c13 = c13
         self.sw = sw_name
         self.d = duration
+        self.init = [tuple(e) for e in init]
         self.kind = c13.catalog()["items"][sw_name]["kind"]
-        self.name = "c14-fixall-%s-d%d" % (sw_name, duration)
+        self.name = "c14-fixall-%s-d%d%s" % (sw_name, duration, "-i%d" % len(self.init) if self.init else "")
         verbs = [v for v in (c13.SVC_VERBS if self.kind == "service" else c13.APP_VERBS) if v not in ("fix", "scan")]
         self._menu = [("tick",), ("req", "fix"), ("attack",)] + [("req", v) for v in verbs] + [("power",)]
 
     def params(self):
-        return {"fixall": True, "software": self.sw, "duration": self.d}
+        return {"fixall": True, "software": self.sw, "duration": self.d, "init": [list(e) for e in self.init]}
 
     def build(self):
         c13 = self.c13
@@ -720,6 +724,8 @@ class FixAdapter(engine.Adapter):
         s.item.config.fixing_duration = self.d
         s.left = None  # steps (node ON) until the accepted fix is due
         s.start()
+        for ev in self.init:
+            self.apply(s, ev)
         return s
 
     def menu(self, s):
@@ -782,8 +788,8 @@ class FixAdapter(engine.Adapter):
 
 def make_adapter(p):
     if p.get("fixall"):
-        return FixAdapter(p["software"], p["duration"])
-    return HealthAdapter(p["menu"], p["fix_svc"], p["fix_app"], p["dscan"], p["drest"], p["nscan"])
+        return FixAdapter(p["software"], p["duration"], p.get("init", ()))
+    return HealthAdapter(p["menu"], p["fix_svc"], p["fix_app"], p["dscan"], p["drest"], p["nscan"], p.get("init", ()))
 
 
 def replay(doc):
@@ -857,8 +863,17 @@ def run(tier, is_known):
     t0 = time.time()
     plan = _plan(tier)
     ads = []
-    for menu, fs_, fa, ds, dr, n, depth, budget, tb in plan:
-        ad = HealthAdapter(menu, fs_, fa, ds, dr, n)
+    # searches that start while timed operations are under way: a folder scan with a node scan inside its window; a fix that
+    # has run one step; a folder restore one step in
+    OVERLAP = [("folder", "scan"), ("os_scan",), ("tick",)]
+    MIDFIX = [("sw", "service", "fix"), ("sw", "application", "fix"), ("tick",)]
+    th = tier == "thorough"
+    plan = [p + ((),) for p in plan]
+    plan += [("fst", 2, 2, 3, 1, 1, 6 if th else 4, 400000 if th else 60000, 600 if th else 15, OVERLAP),
+             ("fst", 2, 2, 4, 2, 2, 6 if th else 4, 400000 if th else 60000, 600 if th else 15, OVERLAP),
+             ("sw", 2, 3, 1, 1, 2, 6 if th else 4, 400000 if th else 60000, 600 if th else 15, MIDFIX)]
+    for menu, fs_, fa, ds, dr, n, depth, budget, tb, init in plan:
+        ad = HealthAdapter(menu, fs_, fa, ds, dr, n, init)
         engine._ADAPTERS[ad.name] = ad  # registered before the pool forks: one pool for all harnesses
         ads.append((ad, depth, budget, tb))
     from . import c13
@@ -868,6 +883,10 @@ def run(tier, is_known):
             ad = FixAdapter(nm, d)
             engine._ADAPTERS[ad.name] = ad
             ads.append((ad, 6 if tier == "thorough" else 4, 200000, 120 if tier == "thorough" else 10))
+        # start state: a fix that has already run one step (what an interrupted fix leaves behind for the next one)
+        ad = FixAdapter(nm, 3, init=[("req", "fix"), ("tick",)])
+        engine._ADAPTERS[ad.name] = ad
+        ads.append((ad, 6 if tier == "thorough" else 4, 200000, 120 if tier == "thorough" else 10))
     viols, per, samples, hist = [], [], [], {}
     tot = {"states": 0, "transitions": 0}
     outcomes = 0
